@@ -567,3 +567,8 @@ func SumMap(xs []int) (int, int) {
 	}
 	return keys, vals
 }
+
+// bytes.Compare / strings.Compare
+func Cmp3(a, b []byte, s, u string) (int, int, bool) {
+	return bytes.Compare(a, b), strings.Compare(s, u), bytes.Compare(a, b) <= 0
+}
